@@ -17,7 +17,7 @@ LEVEL = "fault_enumeration"
 CASE_TIMEOUT = {"quick": 300, "thorough": 600}
 SHARDS_PER_JOB = 8
 CAP = 40
-TIME_LIMIT = 50.0
+TIME_LIMIT = 0.5
 FIELDS = ("x", "y", "xn", "yn")
 
 
